@@ -252,6 +252,14 @@ inductive FExpr where
       the many side's labels without the metric name, the `inc` labels taken from the one side -/
   | binMany (op : String) (on : Bool) (L inc : List String) (manyLeft : Bool) (f : Int → Int → Option Int)
       (many one : FExpr)
+  /-- a range function over a matrix selector, `rate(m[5m])`, `max_over_time(m[1m])` …: a
+      per-series function of the series' window (the one-timestamp model carries one value per
+      series, standing for that window); the metric name is dropped when `drop` -/
+  | rangeFn (name : String) (text rng : String) (p : Labels → Bool) (drop : Bool) (f : Int → Option Int)
+  /-- `label_replace(e, dst, …)` / `label_join(e, dst, …)`: label `dst` is set to a value computed
+      from the series' own labels (`none` = the label is removed); the other arguments are
+      string literals -/
+  | labelFn (name : String) (dst : String) (extra : List String) (v : Labels → Option String) (e : FExpr)
   /-- `histogram_quantile(φ, e)`: buckets grouped by every label but `le` (metric name dropped);
       `f` computes the quantile from the member series (their `le` labels and values) -/
   | histQ (phi : String) (f : List Series → Int) (e : FExpr)
@@ -274,6 +282,8 @@ def FExpr.WF : FExpr → Prop
   | .bin _ _ _ _ _ l r => l.WF ∧ r.WF
   | .or_ _ _ l r => l.WF ∧ r.WF
   | .histQ _ _ e => e.WF
+  | .labelFn name _ _ _ e => (name = "label_replace" ∨ name = "label_join") ∧ e.WF
+  | .rangeFn name _ _ _ _ _ => plainFn name = true
   | .binMany _ on L inc _ _ many one =>
     -- the parser rejects a label in both `on` and `group_x`; with `ignoring` only labels of `L`
     -- can differ between the sides, so only those are meaningful to copy
@@ -287,6 +297,8 @@ def FExpr.toExpr : FExpr → Expr
   | .bin op on L _ _ l r => .bin op (if on then .on else .ignoring) L l.toExpr r.toExpr
   | .or_ on L l r => .bin "or" (if on then .on else .ignoring) L l.toExpr r.toExpr
   | .histQ phi _ e => .call "histogram_quantile" [.num phi, e.toExpr]
+  | .labelFn name dst extra _ e => .call name (e.toExpr :: .str dst :: extra.map .str)
+  | .rangeFn name text rng _ _ _ => .call name [.mat text rng]
   | .binMany op on L _ manyLeft _ many one =>
     if manyLeft then .bin op (if on then .on else .ignoring) L many.toExpr one.toExpr
     else .bin op (if on then .on else .ignoring) L one.toExpr many.toExpr
@@ -302,6 +314,10 @@ def FExpr.toV : FExpr → VExpr
   | .or_ on L l r =>
     .append l.toV (.binL (sigOf on L) (fun x ro => match ro with | none => some x | some _ => none) r.toV l.toV)
   | .histQ _ f e => .agg (keyWithout ["le"]) f e.toV
+  | .labelFn _ dst _ v e =>
+    .fn (fun l x => some ((l.filter fun p => p.1 ≠ dst) ++ (match v l with | none => [] | some s => [(dst, s)]), x)) e.toV
+  | .rangeFn _ _ _ p drop f =>
+    .fn (fun l v => (f v).map fun v' => (if drop then dropName l else l, v')) (.sel p)
   | .binMany _ on L inc _ f many one =>
     .binL (sigOf on L)
       (fun x ro => ro.bind fun r => (f x.2 r.2).map fun v => (withInc inc (dropName x.1) r.1, v)) many.toV one.toV
@@ -315,8 +331,23 @@ def FExpr.scopes : FExpr → List (List String × Bool)
   | .bin _ on L _ _ l r => binScope on L :: (l.scopes ++ r.scopes)
   | .or_ on L l r => binScope on L :: (l.scopes ++ r.scopes)
   | .histQ _ _ e => (["le"], false) :: e.scopes
+  | .labelFn _ _ _ _ e => e.scopes
+  | .rangeFn _ _ _ _ _ _ => []
   | .binMany _ on L _ manyLeft _ many one =>
     binScope on L :: (if manyLeft then many.scopes ++ one.scopes else one.scopes ++ many.scopes)
+
+/-- the dynamic labels (targets of label_replace / label_join) in the analyzer's pre-order -/
+def FExpr.dyns : FExpr → List String
+  | .sel _ _ => []
+  | .fn _ _ _ e => e.dyns
+  | .aggBy _ _ _ e => e.dyns
+  | .aggWithout _ _ _ e => e.dyns
+  | .bin _ _ _ _ _ l r => l.dyns ++ r.dyns
+  | .or_ _ _ l r => l.dyns ++ r.dyns
+  | .histQ _ _ e => e.dyns
+  | .labelFn _ dst _ _ e => dst :: e.dyns
+  | .rangeFn _ _ _ _ _ _ => []
+  | .binMany _ _ _ _ manyLeft _ many one => if manyLeft then many.dyns ++ one.dyns else one.dyns ++ many.dyns
 
 def foldScopes (a : Analysis) (scs : List (List String × Bool)) : Analysis :=
   scs.foldl (fun a sc => scopeToLabels a sc.1 sc.2) a
@@ -333,6 +364,13 @@ theorem isScalar_fragment : ∀ (e : FExpr), e.WF → isScalar e.toExpr = false
   | .bin _ _ _ _ _ l r, hwf => by simp [FExpr.toExpr, isScalar, isScalar_fragment l hwf.1]
   | .or_ _ _ l r, hwf => by simp [FExpr.toExpr, isScalar, isScalar_fragment l hwf.1]
   | .histQ _ _ _, _ => by simp [FExpr.toExpr, isScalar]
+  | .labelFn name _ _ _ _, hwf => by
+    rcases hwf.1 with h | h <;> simp [FExpr.toExpr, isScalar, h]
+  | .rangeFn name _ _ _ _ _, hwf => by
+    have hp : plainFn name = true := hwf
+    simp only [plainFn, Bool.not_eq_true', Bool.or_eq_false_iff, decide_eq_false_iff_not] at hp
+    obtain ⟨⟨⟨⟨⟨⟨⟨_, _⟩, _⟩, _⟩, h5⟩, _⟩, h7⟩, h8⟩ := hp
+    simp [FExpr.toExpr, isScalar, h5, h7, h8]
   | .binMany _ _ _ _ manyLeft _ many one, hwf => by
     cases manyLeft
     · simp [FExpr.toExpr, isScalar, isScalar_fragment one hwf.2.2]
@@ -342,12 +380,24 @@ theorem foldScopes_append (a : Analysis) (s1 s2 : List (List String × Bool)) :
     foldScopes a (s1 ++ s2) = foldScopes (foldScopes a s1) s2 := by
   simp [foldScopes, List.foldl_append]
 
+theorem walkList_strs (st : St) : ∀ xs : List String, walkList st (xs.map Expr.str) = st
+  | [] => rfl
+  | x :: xs => by
+    simp only [List.map_cons, walkList, walk]
+    split
+    · exact walkList_strs st xs
+    · rfl
+
+/-- what walking a fragment expression does to the analyzer state -/
+def walked (st : St) (e : FExpr) : St :=
+  { st with an := foldScopes st.an e.scopes, dyn := st.dyn ++ e.dyns }
+
 theorem walk_bin (op : String) (on : Bool) (L : List String) (l r : FExpr) (hl : l.WF) (hr : r.WF)
-    (ihl : ∀ st : St, st.ok = true → walk st l.toExpr = { st with an := foldScopes st.an l.scopes })
-    (ihr : ∀ st : St, st.ok = true → walk st r.toExpr = { st with an := foldScopes st.an r.scopes })
+    (ihl : ∀ st : St, st.ok = true → walk st l.toExpr = walked st l)
+    (ihr : ∀ st : St, st.ok = true → walk st r.toExpr = walked st r)
     (st : St) (hok : st.ok = true) :
     walk st (.bin op (if on then .on else .ignoring) L l.toExpr r.toExpr) =
-      { st with an := foldScopes st.an (binScope on L :: (l.scopes ++ r.scopes)) } := by
+      { st with an := foldScopes st.an (binScope on L :: (l.scopes ++ r.scopes)), dyn := st.dyn ++ (l.dyns ++ r.dyns) } := by
   have h1 := isScalar_fragment l hl
   have h2 := isScalar_fragment r hr
   simp only [walk, hok, h1, h2]
@@ -356,57 +406,81 @@ theorem walk_bin (op : String) (on : Bool) (L : List String) (l r : FExpr) (hl :
       ((if on = true then Match.on else Match.ignoring) == Match.on) = (binScope on L).2 := by
     cases on <;> simp [binScope] <;> decide
   rw [ihl _ (by simp [hok])]
-  simp only [hok, if_true]
+  simp only [walked, hok, if_true]
   rw [ihr _ (by simp [hok])]
-  simp only [foldScopes, List.foldl_cons, List.foldl_append]
+  simp only [walked, foldScopes, List.foldl_cons, List.foldl_append, List.append_assoc]
   rw [hsc.1, hsc.2]
 
-theorem walk_fragment : ∀ (e : FExpr), e.WF → ∀ st : St, st.ok = true →
-    walk st e.toExpr = { st with an := foldScopes st.an e.scopes }
-  | .sel _ _, _, st, _ => by simp [FExpr.toExpr, walk, FExpr.scopes, foldScopes]
+theorem walk_fragment : ∀ (e : FExpr), e.WF → ∀ st : St, st.ok = true → walk st e.toExpr = walked st e
+  | .sel _ _, _, st, _ => by simp [FExpr.toExpr, walk, walked, FExpr.scopes, FExpr.dyns, foldScopes]
   | .fn name _ _ e, hwf, st, hok => by
     have hp := hwf.1
     simp only [plainFn, Bool.not_eq_true', Bool.or_eq_false_iff, decide_eq_false_iff_not] at hp
     obtain ⟨⟨⟨⟨⟨⟨⟨h1, h2⟩, h3⟩, h4⟩, h5⟩, h6⟩, _⟩, _⟩ := hp
     simp only [FExpr.toExpr, walk, hok, h1, h2, h3, h4, h5, h6, walkList, FExpr.scopes]
-    simp [walk_fragment e hwf.2 st hok, hok]
+    simp [walk_fragment e hwf.2 st hok, hok, walked, FExpr.scopes, FExpr.dyns]
   | .aggBy op L _ e, hwf, st, hok => by
-    simp only [FExpr.toExpr, walk, hok, hwf.1, FExpr.scopes, foldScopes, List.foldl_cons]
+    simp only [FExpr.toExpr, walk, hok, hwf.1]
     simp
     rw [walk_fragment e hwf.2 _ (by simp [hok])]
     have : (Mode.by_ != Mode.without) = true := by decide
-    simp [foldScopes, this]
+    simp [walked, foldScopes, this, FExpr.scopes, FExpr.dyns, hok]
   | .aggWithout op L _ e, hwf, st, hok => by
-    simp only [FExpr.toExpr, walk, hok, hwf.1, FExpr.scopes, foldScopes, List.foldl_cons]
+    simp only [FExpr.toExpr, walk, hok, hwf.1]
     simp
     rw [walk_fragment e hwf.2 _ (by simp [hok])]
     have : (Mode.without != Mode.without) = false := by decide
-    simp [foldScopes, this]
+    simp [walked, foldScopes, this, FExpr.scopes, FExpr.dyns, hok]
   | .bin op on L _ _ l r, hwf, st, hok => by
-    simp only [FExpr.toExpr, FExpr.scopes]
+    simp only [FExpr.toExpr, walked, FExpr.scopes, FExpr.dyns]
     exact walk_bin op on L l r hwf.1 hwf.2 (walk_fragment l hwf.1) (walk_fragment r hwf.2) st hok
   | .or_ on L l r, hwf, st, hok => by
-    simp only [FExpr.toExpr, FExpr.scopes]
+    simp only [FExpr.toExpr, walked, FExpr.scopes, FExpr.dyns]
     exact walk_bin "or" on L l r hwf.1 hwf.2 (walk_fragment l hwf.1) (walk_fragment r hwf.2) st hok
   | .histQ phi _ e, hwf, st, hok => by
-    simp only [FExpr.toExpr, walk, hok, FExpr.scopes, foldScopes, List.foldl_cons]
+    simp only [FExpr.toExpr, walk, hok]
     simp only [not_true_eq_false, if_false, String.reduceEq, or_self, if_true, walkList, walk]
     rw [walk_fragment e hwf _ (by simp [hok])]
-    simp [foldScopes, hok]
+    simp [walked, foldScopes, hok, FExpr.scopes, FExpr.dyns]
+  | .labelFn name dst extra _ e, hwf, st, hok => by
+    have hname : name = "label_join" ∨ name = "label_replace" := hwf.1.symm
+    simp only [FExpr.toExpr, walk, hok, hname, dstLabel]
+    simp only [not_true_eq_false, if_false, if_true, walkList]
+    rw [walk_fragment e hwf.2 _ (by simp [hok])]
+    simp only [walked, hok, if_true]
+    have := walkList_strs { an := foldScopes st.an e.scopes, dyn := st.dyn ++ [dst] ++ e.dyns, ok := true, cv := st.cv } extra
+    simp only [walk]
+    rw [this]
+    simp [FExpr.scopes, FExpr.dyns, List.append_assoc]
+  | .rangeFn name _ _ _ _ _, hwf, st, hok => by
+    have hp : plainFn name = true := hwf
+    simp only [plainFn, Bool.not_eq_true', Bool.or_eq_false_iff, decide_eq_false_iff_not] at hp
+    obtain ⟨⟨⟨⟨⟨⟨⟨h1, h2⟩, h3⟩, h4⟩, h5⟩, h6⟩, _⟩, _⟩ := hp
+    simp only [FExpr.toExpr, walk, hok, h1, h2, h3, h4, h5, h6, walkList]
+    simp only [walked, FExpr.scopes, FExpr.dyns, foldScopes, List.foldl_nil, List.append_nil, not_true_eq_false,
+      if_false, or_self, if_true]
   | .binMany op on L inc manyLeft _ many one, hwf, st, hok => by
     cases manyLeft with
     | true =>
-      simp only [FExpr.toExpr, FExpr.scopes, if_true]
+      simp only [FExpr.toExpr, walked, FExpr.scopes, FExpr.dyns, if_true]
       exact walk_bin op on L many one hwf.2.1 hwf.2.2 (walk_fragment many hwf.2.1) (walk_fragment one hwf.2.2) st hok
     | false =>
-      simp only [FExpr.toExpr, FExpr.scopes, Bool.false_eq_true, if_false]
+      simp only [FExpr.toExpr, walked, FExpr.scopes, FExpr.dyns, Bool.false_eq_true, if_false]
       exact walk_bin op on L one many hwf.2.2 hwf.2.1 (walk_fragment one hwf.2.2) (walk_fragment many hwf.2.1) st hok
 
+/-- every scope the analyzer applies: the grouping scopes, then the dynamic labels as one
+    `without` scope when there are any -/
+def FExpr.allScopes (e : FExpr) : List (List String × Bool) :=
+  e.scopes ++ (if e.dyns.isEmpty then [] else [(e.dyns, false)])
+
 theorem analyze_fragment (e : FExpr) (hwf : e.WF) :
-    analyze e.toExpr = foldScopes ⟨none, false⟩ e.scopes := by
-  unfold analyze analyzeWith
+    analyze e.toExpr = foldScopes ⟨none, false⟩ e.allScopes := by
+  unfold analyze analyzeWith FExpr.allScopes
   rw [walk_fragment e hwf _ rfl]
-  simp
+  simp only [walked, List.nil_append]
+  by_cases hd : e.dyns.isEmpty = true
+  · simp [hd, foldScopes]
+  · simp [hd, foldScopes, List.foldl_append]
 
 theorem mem_intersect {a b : List String} {x : String} (h : x ∈ intersect a b) : x ∈ a ∧ x ∈ b := by
   unfold intersect at h
@@ -615,6 +689,8 @@ def Scoped (K : List String) (by_ : Bool) : FExpr → Prop
   | .or_ on L l r => BinOK K by_ on L ∧ Scoped K by_ l ∧ Scoped K by_ r
   | .histQ _ _ e =>
     (NameSafe K by_ ∧ if by_ then ∀ k ∈ K, k ∉ ["le"] else ∀ x ∈ ["le"], x ∈ K) ∧ Scoped K by_ e
+  | .labelFn _ dst _ _ e => shardByLabel K dst by_ = false ∧ Scoped K by_ e
+  | .rangeFn _ _ _ _ drop _ => drop = true → NameSafe K by_
   | .binMany _ on L inc _ _ many one =>
     (BinOK K by_ on L ∧ NameSafe K by_ ∧ (if on then ∀ i ∈ inc, i ∉ L else ∀ i ∈ inc, i ∈ L)) ∧
       Scoped K by_ many ∧ Scoped K by_ one
@@ -660,6 +736,22 @@ theorem inc_not_hashed {K : List String} {by_ on : Bool} {L inc : List String} (
       simp only [Bool.false_eq_true, if_false] at hb
       have : i ∈ K := hb.1 i (hw i hi)
       simp [this]
+
+/-- setting a label that is not hashed does not move the series to another shard -/
+theorem proj_setLabel {K : List String} {by_ : Bool} {dst : String} (h : shardByLabel K dst by_ = false)
+    (l : Labels) (nw : Labels) (hnw : ∀ x ∈ nw, x.1 = dst) :
+    projection K by_ ((l.filter fun p => p.1 ≠ dst) ++ nw) = projection K by_ l := by
+  unfold projection
+  rw [List.filter_append]
+  have h2 : nw.filter (fun x => shardByLabel K x.1 by_) = [] := by
+    apply List.filter_eq_nil_iff.mpr
+    intro a ha
+    rw [hnw a ha, h]; simp
+  rw [h2, List.append_nil]
+  apply filter_filter_of_imp
+  intro a _ ha
+  have : a.1 ≠ dst := fun e => by rw [e, h] at ha; cases ha
+  simp [this]
 
 theorem compat_histQ (hash : Labels → Nat) (total : Nat) (K : List String) (by_ : Bool)
     (h : NameSafe K by_ ∧ if by_ then ∀ k ∈ K, k ∉ ["le"] else ∀ x ∈ ["le"], x ∈ K) (l : Labels) :
@@ -732,6 +824,34 @@ theorem compat_of_scoped (hash : Labels → Nat) (total : Nat) (K : List String)
       | none => simp at hs; subst hs; rfl
       | some _ => simp at hs
   | .histQ _ f e, h => ⟨compat_histQ hash total K by_ h.1, compat_of_scoped hash total K by_ e h.2⟩
+  | .rangeFn _ _ _ _ drop f, h => by
+    refine ⟨?_, trivial⟩
+    intro l v s hs
+    cases hf : f v with
+    | none => simp [hf] at hs
+    | some v' =>
+      simp only [hf, Option.map_some, Option.some.injEq] at hs
+      subst hs
+      cases drop with
+      | false => rfl
+      | true =>
+        have hn := h rfl
+        unfold shReal
+        cases by_ with
+        | true => simp only [if_true]; rw [proj_dropName_by (by simpa [NameSafe] using hn)]
+        | false => simp only [if_true]; rw [proj_dropName_without (by simpa [NameSafe] using hn)]
+  | .labelFn _ dst _ v e, h => by
+    refine ⟨?_, compat_of_scoped hash total K by_ e h.2⟩
+    intro l x s hs
+    simp only [Option.some.injEq] at hs
+    subst hs
+    unfold shReal
+    simp only
+    rw [proj_setLabel h.1]
+    intro y hy
+    cases hv : v l with
+    | none => simp [hv] at hy
+    | some w => simp [hv] at hy; rw [hy]
   | .binMany _ on L inc _ f many one, h => by
     obtain ⟨⟨hb, hn, hw⟩, hm, ho⟩ := h
     refine ⟨?_, ?_, compat_of_scoped hash total K by_ many hm, compat_of_scoped hash total K by_ one ho⟩
@@ -789,72 +909,107 @@ theorem scopeInv_sub {K : List String} {by_ : Bool} {seen sub : List (List Strin
   | false => simp only [Bool.false_eq_true, if_false] at h ⊢; exact fun sc hsc => h sc (hsub sc hsc)
 
 theorem scoped_of_inv (K : List String) (by_ : Bool) (hn : NameSafe K by_) :
-    ∀ e : FExpr, e.WF → ScopeInv ⟨some K, by_⟩ e.scopes → Scoped K by_ e
-  | .sel _ _, _, _ => trivial
-  | .fn _ _ _ e, hwf, h => ⟨fun _ => hn, scoped_of_inv K by_ hn e hwf.2 h⟩
-  | .aggBy _ L _ e, hwf, h => by
+    ∀ e : FExpr, e.WF → (∀ d ∈ e.dyns, shardByLabel K d by_ = false) → ScopeInv ⟨some K, by_⟩ e.scopes → Scoped K by_ e
+  | .sel _ _, _, _, _ => trivial
+  | .fn _ _ _ e, hwf, hd, h => ⟨fun _ => hn, scoped_of_inv K by_ hn e hwf.2 hd h⟩
+  | .aggBy _ L _ e, hwf, hd, h => by
     unfold ScopeInv at h
     simp only [FExpr.scopes] at h
     cases by_ with
     | true =>
       simp only [if_true] at h
-      refine ⟨⟨rfl, (h (L, true) (by simp)).1 rfl⟩, scoped_of_inv K true hn e hwf.2 ?_⟩
+      refine ⟨⟨rfl, (h (L, true) (by simp)).1 rfl⟩, scoped_of_inv K true hn e hwf.2 hd ?_⟩
       unfold ScopeInv; simp only [if_true]
       exact fun sc hsc => h sc (List.mem_cons_of_mem _ hsc)
     | false =>
       simp only [Bool.false_eq_true, if_false] at h
       have := (h (L, true) (by simp)).1
       cases this
-  | .aggWithout _ L _ e, hwf, h => by
+  | .aggWithout _ L _ e, hwf, hd, h => by
     unfold ScopeInv at h
     simp only [FExpr.scopes] at h
     cases by_ with
     | true =>
       simp only [if_true] at h
-      refine ⟨⟨hn, by simpa using (h (L, false) (by simp)).2 rfl⟩, scoped_of_inv K true hn e hwf.2 ?_⟩
+      refine ⟨⟨hn, by simpa using (h (L, false) (by simp)).2 rfl⟩, scoped_of_inv K true hn e hwf.2 hd ?_⟩
       unfold ScopeInv; simp only [if_true]
       exact fun sc hsc => h sc (List.mem_cons_of_mem _ hsc)
     | false =>
       simp only [Bool.false_eq_true, if_false] at h
-      refine ⟨⟨hn, by simpa using (h (L, false) (by simp)).2⟩, scoped_of_inv K false hn e hwf.2 ?_⟩
+      refine ⟨⟨hn, by simpa using (h (L, false) (by simp)).2⟩, scoped_of_inv K false hn e hwf.2 hd ?_⟩
       unfold ScopeInv; simp only [Bool.false_eq_true, if_false]
       exact fun sc hsc => h sc (List.mem_cons_of_mem _ hsc)
-  | .bin _ on L _ _ l r, hwf, h => by
+  | .bin _ on L _ _ l r, hwf, hd, h => by
     simp only [FExpr.scopes] at h
+    simp only [FExpr.dyns] at hd
     exact ⟨binOK_of_inv h,
-      scoped_of_inv K by_ hn l hwf.1 (scopeInv_sub h (fun sc hsc => List.mem_cons_of_mem _ (List.mem_append_left _ hsc))),
-      scoped_of_inv K by_ hn r hwf.2 (scopeInv_sub h (fun sc hsc => List.mem_cons_of_mem _ (List.mem_append_right _ hsc)))⟩
-  | .or_ on L l r, hwf, h => by
+      scoped_of_inv K by_ hn l hwf.1 (fun d hd' => hd d (List.mem_append_left _ hd'))
+        (scopeInv_sub h (fun sc hsc => List.mem_cons_of_mem _ (List.mem_append_left _ hsc))),
+      scoped_of_inv K by_ hn r hwf.2 (fun d hd' => hd d (List.mem_append_right _ hd'))
+        (scopeInv_sub h (fun sc hsc => List.mem_cons_of_mem _ (List.mem_append_right _ hsc)))⟩
+  | .or_ on L l r, hwf, hd, h => by
     simp only [FExpr.scopes] at h
+    simp only [FExpr.dyns] at hd
     exact ⟨binOK_of_inv h,
-      scoped_of_inv K by_ hn l hwf.1 (scopeInv_sub h (fun sc hsc => List.mem_cons_of_mem _ (List.mem_append_left _ hsc))),
-      scoped_of_inv K by_ hn r hwf.2 (scopeInv_sub h (fun sc hsc => List.mem_cons_of_mem _ (List.mem_append_right _ hsc)))⟩
-  | .histQ _ _ e, hwf, h => by
+      scoped_of_inv K by_ hn l hwf.1 (fun d hd' => hd d (List.mem_append_left _ hd'))
+        (scopeInv_sub h (fun sc hsc => List.mem_cons_of_mem _ (List.mem_append_left _ hsc))),
+      scoped_of_inv K by_ hn r hwf.2 (fun d hd' => hd d (List.mem_append_right _ hd'))
+        (scopeInv_sub h (fun sc hsc => List.mem_cons_of_mem _ (List.mem_append_right _ hsc)))⟩
+  | .histQ _ _ e, hwf, hd, h => by
     unfold ScopeInv at h
     simp only [FExpr.scopes] at h
     cases by_ with
     | true =>
       simp only [if_true] at h
-      refine ⟨⟨hn, by simpa using (h (["le"], false) (by simp)).2 rfl⟩, scoped_of_inv K true hn e hwf ?_⟩
+      refine ⟨⟨hn, by simpa using (h (["le"], false) (by simp)).2 rfl⟩, scoped_of_inv K true hn e hwf hd ?_⟩
       unfold ScopeInv; simp only [if_true]
       exact fun sc hsc => h sc (List.mem_cons_of_mem _ hsc)
     | false =>
       simp only [Bool.false_eq_true, if_false] at h
-      refine ⟨⟨hn, by simpa using (h (["le"], false) (by simp)).2⟩, scoped_of_inv K false hn e hwf ?_⟩
+      refine ⟨⟨hn, by simpa using (h (["le"], false) (by simp)).2⟩, scoped_of_inv K false hn e hwf hd ?_⟩
       unfold ScopeInv; simp only [Bool.false_eq_true, if_false]
       exact fun sc hsc => h sc (List.mem_cons_of_mem _ hsc)
-  | .binMany _ on L inc manyLeft _ many one, hwf, h => by
+  | .rangeFn _ _ _ _ _ _, _, _, _ => fun _ => hn
+  | .labelFn _ dst _ _ e, hwf, hd, h => by
+    simp only [FExpr.dyns] at hd
+    exact ⟨hd dst (by simp), scoped_of_inv K by_ hn e hwf.2 (fun d hd' => hd d (List.mem_cons_of_mem _ hd')) h⟩
+  | .binMany _ on L inc manyLeft _ many one, hwf, hd, h => by
     simp only [FExpr.scopes] at h
+    simp only [FExpr.dyns] at hd
     refine ⟨⟨binOK_of_inv h, hn, hwf.1⟩, ?_, ?_⟩
-    · apply scoped_of_inv K by_ hn many hwf.2.1 (scopeInv_sub h ?_)
-      intro sc hsc
-      cases manyLeft
-      · exact List.mem_cons_of_mem _ (by simp [hsc])
-      · exact List.mem_cons_of_mem _ (by simp [hsc])
-    · apply scoped_of_inv K by_ hn one hwf.2.2 (scopeInv_sub h ?_)
-      intro sc hsc
-      cases manyLeft
-      · exact List.mem_cons_of_mem _ (by simp [hsc])
-      · exact List.mem_cons_of_mem _ (by simp [hsc])
+    · apply scoped_of_inv K by_ hn many hwf.2.1 ?_ (scopeInv_sub h ?_)
+      · intro d hd'; apply hd d; cases manyLeft <;> simp [hd']
+      · intro sc hsc
+        cases manyLeft
+        · exact List.mem_cons_of_mem _ (by simp [hsc])
+        · exact List.mem_cons_of_mem _ (by simp [hsc])
+    · apply scoped_of_inv K by_ hn one hwf.2.2 ?_ (scopeInv_sub h ?_)
+      · intro d hd'; apply hd d; cases manyLeft <;> simp [hd']
+      · intro sc hsc
+        cases manyLeft
+        · exact List.mem_cons_of_mem _ (by simp [hsc])
+        · exact List.mem_cons_of_mem _ (by simp [hsc])
+
+/-- the final dynamic-label scope makes every dynamic label un-hashed -/
+theorem dyns_not_hashed {K : List String} {by_ : Bool} {e : FExpr} (h : ScopeInv ⟨some K, by_⟩ e.allScopes) :
+    ∀ d ∈ e.dyns, shardByLabel K d by_ = false := by
+  intro d hd
+  have hne : e.dyns.isEmpty = false := by
+    cases hdy : e.dyns with
+    | nil => rw [hdy] at hd; simp at hd
+    | cons _ _ => rfl
+  have hmem : (e.dyns, false) ∈ e.allScopes := by simp [FExpr.allScopes, hne]
+  unfold ScopeInv at h
+  unfold shardByLabel
+  cases by_ with
+  | true =>
+    simp only [if_true] at h
+    have := (h _ hmem).2 rfl
+    have hk : ¬ d ∈ K := fun hk => this d hk hd
+    simp [hk]
+  | false =>
+    simp only [Bool.false_eq_true, if_false] at h
+    have := (h _ hmem).2 d hd
+    simp [this]
 
 end Thanos.Sharding
